@@ -146,7 +146,8 @@ theorem unchecked_assertions_expected : Gen.uncheckedAssertions =
      ("runtime.cmplEvaluateNodeStatement", "variable.(*nodeVariableExpression)"),
      ("runtime.convertCallParameter", "r.Interface(…).(TextUnmarshaler)"),
      ("runtime.newErrorObject", "obj.value.(ottoError)"),
-     ("runtime.newErrorObjectError", "obj.value.(ottoError)")] := by decide
+     ("runtime.newErrorObjectError", "obj.value.(ottoError)"),
+     ("stringDefineOwnProperty", "prop.value.(Value)")] := by decide
 
 /-- P3: explicit panics with a payload Run does not convert are confined to the known
     internal-invariant sites ("unknown node type", "here be dragons", stash bookkeeping); the bridged
